@@ -595,13 +595,19 @@ def _run_alg(cfg, data, cap, with_cb, tl, D):
             p2 = random_parafac2(shapes, rank, random_state=seed + 3, full=False)
             w = {"none": None, "ones": np.ones(rank), "positive": np.arange(1, rank + 1) * 1.5,
                  "mixed": np.array([(-2.0) ** (j + 1) for j in range(rank)])}[cfg.get("init_weights", "none")]
+            absorb = None
             if cfg.get("init_absorb") and w is not None:
-                p2 = (p2[0], [np.array(p2[1][0]) * w.reshape(1, -1)] + [np.array(f) for f in p2[1][1:]], p2[2])
+                # absorbed into B (mode 1), the mode PARAFAC2 itself folds the weights into and that carries no constraint
+                absorb = w.reshape(1, -1)
+                fs_ = [np.array(f) for f in p2[1]]
+                p2 = (p2[0], [fs_[0], fs_[1] * absorb, fs_[2]], p2[2])
                 w = None
             if cfg.get("init_as", "parafac2") == "cp":
                 # a CP tensor of shape (n_slices, rows, cols): needs slices of equal height
                 rngc = _rng(seed * 31 + 6)
                 Bfull = rngc.standard_normal((shapes[0][0], rank))
+                if absorb is not None:
+                    Bfull = Bfull * absorb
                 cpf = [np.array(p2[1][0]), Bfull, np.array(p2[1][2])]
                 rawinit = ("cp", w, cpf)
                 init = (None if w is None else w.copy(), [f.copy() for f in cpf])
@@ -1442,7 +1448,7 @@ def warm_configs(tier, seed):
         add("nn_parafac_hals", shape=shape, rank=2, data="nonneg", init_kind="nonneg", init_weights="none", tol="tiny", fixed=[0, 1, 2], normalize=nrm, caps=[0, 2])
     # PARAFAC2 warm starts with a negative weight and a non-negative last mode: weighted and absorbed form agree
     for init_as in ("parafac2", "cp"):
-        for nn in ([2], None):
+        for nn in ([2], None, [0, 2], "all"):
             add("parafac2", shape=[3, 0, 4], rows=[5, 5, 5] if init_as == "cp" else [4, 5, 4], rank=2, data="nonneg", init_weights="mixed",
                 init_as=init_as, tol="tiny", twin=True, nn_modes=nn, caps=[0, 1, 2, 3])
     # the same initialisation OBJECT handed to two consecutive calls (a retry, a sweep over options, a refit): the second
